@@ -22,6 +22,30 @@ use std::hash::{Hash, Hasher};
 use std::path::Path;
 use std::sync::Arc;
 
+/// Arrow type of an aggregate's input expression over the operator's INPUT schema.
+///
+/// `Expr::data_type` resolves columns strictly by `relation.name`, but an
+/// execution-time schema often carries the column under another qualifier
+/// than the expression does (`s.c1` over a subquery alias whose projection
+/// emits plain `c1`). The evaluator tolerates that (`find_column_index` falls
+/// back to the bare name), so when the strict lookup fails the expression is
+/// typed the way it will actually be evaluated: on an empty batch of the
+/// input schema. Falling straight back to Float64 picked a float accumulator
+/// for an integer column, and the Int64 output builder then turned every
+/// `SUM(s.c1)` into NULL.
+pub(crate) fn agg_input_type(
+    expr: &Expr,
+    plan_schema: &crate::planner::PlanSchema,
+    input_schema: &SchemaRef,
+) -> DataType {
+    expr.data_type(plan_schema)
+        .or_else(|_| {
+            evaluate_expr(&RecordBatch::new_empty(input_schema.clone()), expr)
+                .map(|array| array.data_type().clone())
+        })
+        .unwrap_or(DataType::Float64)
+}
+
 /// Merge per-thread entry lists (all belonging to the same key shard) into a
 /// single groups map. Duplicate keys across threads have their accumulator
 /// states merged pairwise.
@@ -3227,7 +3251,7 @@ pub fn execute_morsel_aggregation(
     let plan_schema = crate::planner::PlanSchema::from_qualified_arrow(input_schema.as_ref());
     let input_types: Vec<DataType> = agg_input_exprs
         .iter()
-        .map(|e| e.data_type(&plan_schema).unwrap_or(DataType::Float64))
+        .map(|e| agg_input_type(e, &plan_schema, &input_schema))
         .collect();
 
     let num_threads =
